@@ -1450,14 +1450,19 @@ class Sym:
             return (name, recv)
         if name == 'encode':
             return ('call', 'encode', (recv,) + tuple(args) + tuple(('kw', k_, v_) for k_, v_ in sorted((kwargs or {}).items()) if k_ is not None))
-        if name == 'format' and recv[0] == 'lit' and isinstance(recv[1], str) and not kwargs and recv[1].count('{}') == len(args) and recv[1].count('{') == len(args):
-            pieces = recv[1].split('{}')
-            parts = []
-            for i, pc in enumerate(pieces):
-                parts.append(lit(pc))
-                if i < len(args):
-                    parts.append(('str', args[i]))
-            return ('cat', tuple(parts))
+        if name == 'format' and recv[0] == 'lit' and isinstance(recv[1], str) and not kwargs:
+            # automatic fields only: {} {!s} {!r} (also the explicit positions {0} {1!r} ... when they come in order)
+            import re as _re
+            fields = list(_re.finditer(r'\{(\d*)(![rs])?\}', recv[1]))
+            if len(fields) == len(args) and recv[1].count('{') == len(args) and recv[1].count('}') == len(args) and \
+                    all(m.group(1) in ('', str(i)) for i, m in enumerate(fields)):
+                parts, pos = [], 0
+                for i, m in enumerate(fields):
+                    parts.append(lit(recv[1][pos:m.start()]))
+                    parts.append(('repr', args[i]) if m.group(2) == '!r' else ('str', args[i]))
+                    pos = m.end()
+                parts.append(lit(recv[1][pos:]))
+                return ('cat', tuple(parts))
         if name == 'get' and len(args) in (1, 2) and not funcs:
             return ('method', recv, 'get', tuple(args))
         return ('method', recv, name, tuple(args) + tuple(('kw', k, v) for k, v in sorted(kwargs.items())))
@@ -1589,6 +1594,34 @@ def assume(t, decide):
         return r
 
     return normalise(go(t))
+
+
+def truth_under(t, decide):
+    """Three-valued truth of a condition term under an assumption (see assume): True / False / None."""
+    def truth(c):
+        if not (isinstance(c, tuple) and c):
+            return None
+        v = decide(c)
+        if v is not None:
+            return v
+        if c[0] == 'not':
+            v = truth(c[1])
+            return None if v is None else (not v)
+        if c[0] == 'lit':
+            return bool(c[1])
+        if c[0] in ('and', 'or') and isinstance(c[1], tuple):
+            vs = [truth(p_) for p_ in c[1]]
+            if c[0] == 'and':
+                return False if any(v is False for v in vs) else (True if all(v is True for v in vs) else None)
+            return True if any(v is True for v in vs) else (False if all(v is False for v in vs) else None)
+        if c[0] == 'cond':
+            v = truth(c[1])
+            if v is None:
+                a, b = truth(c[2]), truth(c[3])
+                return a if a == b else None
+            return truth(c[2]) if v else truth(c[3])
+        return None
+    return truth(t)
 
 
 def cond_leaves(t):
@@ -2224,3 +2257,77 @@ def _pretty(t, names, top=False) -> str:
     if k == 'ref':
         return f'Ref<{t[1]}>({pretty(t[2])}' + ''.join(', ' + pretty(x) for x in t[3]) + ')'
     return str(t)
+
+
+# ---------------------------------------------------------------------------------------------- decision-tree canonical form
+def decision_canon(t, max_atoms=10):
+    """Canonical form of the *decisions* in a term: every maximal tree of `cond` nodes (tests combined with and / or / not) is rebuilt
+    as a reduced ordered decision tree over its atomic tests, atoms ordered by their hash.  Two spellings of the same case analysis
+    (early returns, a boolean flag updated in steps, merged or split conditions, De Morgan) get the same form.  Pure rewriting of
+    control structure: leaves and atoms are untouched (but canonicalised recursively)."""
+    memo = {}
+
+    def atoms_of(c, acc):
+        if c[0] in ('and', 'or'):
+            for x in c[1]:
+                atoms_of(x, acc)
+        elif c[0] == 'not':
+            atoms_of(c[1], acc)
+        elif c[0] == 'lit':
+            pass
+        else:
+            acc.append(c)
+
+    def ev_test(c, val):
+        if c[0] == 'and':
+            return all(ev_test(x, val) for x in c[1])
+        if c[0] == 'or':
+            return any(ev_test(x, val) for x in c[1])
+        if c[0] == 'not':
+            return not ev_test(c[1], val)
+        if c[0] == 'lit':
+            return bool(c[1])
+        return val[c]
+
+    def collect(x, acc):
+        if isinstance(x, tuple) and x and x[0] == 'cond':
+            atoms_of(x[1], acc)
+            collect(x[2], acc)
+            collect(x[3], acc)
+
+    def ev_tree(x, val):
+        while isinstance(x, tuple) and x and x[0] == 'cond':
+            x = x[2] if ev_test(x[1], val) else x[3]
+        return x
+
+    def go(x):
+        if not isinstance(x, tuple) or not x:
+            return x
+        i = id(x)
+        if i in memo:
+            return memo[i][1]
+        if x[0] == 'cond':
+            raw = []
+            collect(x, raw)
+            # atoms canonicalised first (they may contain decisions themselves), identical atoms merged
+            canon_atom = {}
+            for a in raw:
+                if a not in canon_atom:
+                    canon_atom[a] = go(a)
+            order = sorted(set(canon_atom.values()), key=term_hash)
+            if len(order) <= max_atoms:
+                def build(k, val):
+                    if k == len(order):
+                        leaf = ev_tree(x, {a: val[canon_atom[a]] for a in canon_atom})
+                        return go(leaf)
+                    hi = build(k + 1, {**val, order[k]: True})
+                    lo = build(k + 1, {**val, order[k]: False})
+                    return hi if hi == lo else ('cond', order[k], hi, lo)
+                r = build(0, {})
+                memo[i] = (x, r)
+                return r
+        r = tuple(go(c) if isinstance(c, tuple) else c for c in x)
+        memo[i] = (x, r)
+        return r
+
+    return go(t)
